@@ -119,8 +119,7 @@ func closeGateway(gw *bed.Gateway, last *proxyv1alpha1.UpstreamCluster) {
 	if _, ok := gw.Cluster(last.Name); ok {
 		_ = safely(func() { gw.Apply(withoutSchemas(last)) })
 	}
-	gw.Close()
-	gw.Ctrl.VerifShutdown()
+	gw.Close() // also shuts the controller's queue down (VerifShutdown)
 }
 
 // lightGateway is bed.NewGateway without the proxy handler chain (which the soundness part never sends a request through
